@@ -152,6 +152,24 @@ func genFmtCases(seed int64, tier string, scale float64) []fmtCase {
 	for _, l := range larges {
 		addCase("large", []ref.Msg{mk(l[0], l[1], baseTime, false, false), mk(1, 1, baseTime+1, false, false)})
 	}
+	// many small messages: index files around chunk/page-size boundaries of every item layout
+	for _, n := range []int{127, 128, 129, 169, 170, 171, 172, 255, 256, 257, 340, 341, 342, 511, 512, 513, 1023, 1025} {
+		var msgs []ref.Msg
+		t := baseTime
+		for j := 0; j < n; j++ {
+			t += int64(r.Intn(3))
+			msgs = append(msgs, mk(r.Intn(3), r.Intn(4), t, false, false))
+		}
+		for _, cfg := range allCfgs {
+			base := pick(r, bases)
+			ms := make([]ref.Msg, len(msgs))
+			for i, m := range msgs {
+				m.Offset = base + int64(i)
+				ms[i] = m
+			}
+			cases = append(cases, fmtCase{ver: ref.Version(1 + n%2), cfg: cfg, base: base, msgs: ms, tag: "many"})
+		}
+	}
 	// random multi-message files
 	n := int(400 * scale)
 	if tier == "thorough" {
